@@ -110,6 +110,8 @@ func runC05Traces(f *common.Flags, res *common.Result, m *mdl, n int) {
 					bad(i, h.Kind, implTrace, mtrace)
 					ok = false
 				}
+			case "putoff", "putreuse", "special":
+				// covered by the main runs only
 			default: // damage, applied to the files and to the model directly
 				path, k, name := h.target(dir)
 				old, rerr := os.ReadFile(path)
